@@ -347,7 +347,7 @@ class Started:
             be.BaseEventLoop.create_server = self._orig
         for d in self._tmp:
             shutil.rmtree(d, ignore_errors=True)
-        structlog.configure(wrapper_class=structlog.make_filtering_bound_logger(50))
+        __import__('harness.core', fromlist=['core']).configure_harness_logging()      # put the harness logging configuration back
         return False
 
 
